@@ -1,18 +1,31 @@
 /-
 C06 — timer cancellation and bookkeeping are atomic and never crash the scheduler.
 
-Property theorems only.  Same two transition systems as C05 (Model/C05Sched.lean): a client call
-(after / every / cancel) is ONE action — the code holds `guard` for the whole body — and each `select`
-case of the worker (handle one start request, handle one cancel request, tick) is one action; a
-state is reachable by ANY interleaving of them (`WReach` / `HReach`), so every statement below holds
-"however the cancel is ordered relative to the scheduler's handling of the start request, of ticks
-and of other requests".  `Res.panic` marks every place where the code panics (or `trigger` spins).
+Property theorems only.  The transition systems are the FINE-GRAINED ones of Model/C06Fine.lean: a client
+call (after / every / cancel) is ONE step — the code holds `guard` for its whole body — and the worker's
+steps are: handle one start request, handle one cancel request (both only between ticks, they are
+`select` cases), enter a tick, and, INSIDE a tick, one step per guarded region (the decision about one
+node: cancelled → drop, one-shot → leaves the table, else deliver) and one per channel send.  A state
+is reachable (`WFReach` / `HFReach`) by ANY interleaving of these, so a client call may fall before or
+after the worker handles the start request, between two nodes of ONE expiry pass, between a node's
+decision and its send — "however the cancel is ordered relative to the scheduler's handling of the
+start request, of ticks and of other requests".  `Res.panic` marks every place where the code panics (or
+`trigger` spins).  `x.pc` is where the worker is; `x.pc.ids` (wheel) the ids it holds in its hands that
+are still pending (detached chain, a periodic node between decision and re-arm); `x.pc.inflight` the
+ids decided for delivery whose send has not happened yet.
 
-Linearisation.  "Delivered" is the worker's decision under the guard (the log entry); the channel send
-that follows is transport.  A periodic timer cancelled between that decision and the send can still
-appear once on `Chan()`: that window is not in the model (see conf/C06.json, `partial`).
+Linearisation and the ONE stated partial.  A delivery is linearised at the decision under the guard.  A
+one-shot timer decided for delivery has left the table, so a Cancel arriving before its send answers
+false — consistent.  A PERIODIC timer stays in the table; a Cancel arriving between its decision and
+its send answers true and cannot stop that send: `C06_*_cancel_final` therefore says "after a true
+Cancel the timer is never decided for delivery again, and the log gains at most the sends that were
+already in flight at that moment (none if it was not in flight)".  Closing the window would need the
+send under the guard, which can deadlock with a full `C`.
+
+The atomic `tick` of the C05 models is the uninterrupted run of these steps (`C06_*_tick_refines`), and
+every state of the C05 systems is a state of these (`WReach.fine`, `HReach.fine`).
 -/
-import Fatchoy.Lemmas.C05Ex
+import Fatchoy.Lemmas.C06Ex
 namespace Fatchoy.C06
 open Fatchoy.C05
 
@@ -20,382 +33,691 @@ theorem C06_valid : Valid geom := by decide
 
 /-! ## wheel -/
 
-/-- CANCEL RETURNS TRUE IFF PENDING (wheel): in any reachable state, Cancel(id) answers true exactly when
-the timer is in the pipeline (its start request is queued, or it is linked in the wheel — a delivered
-one-shot timer is in neither) and has not been cancelled before -/
-theorem C06_wheel_cancel_iff_pending (G : Geom) (hv : Valid G) {s s' : WS} (hr : WReach G s) (id : Nat) (b : Bool)
-    (hs : WS.step G s (.cancel id) = .ok s' (.bool b)) :
-    (b = true ↔ (id ∈ s.f.addIds ∨ id ∈ ids s.w.nodes) ∧ id ∉ s.f.cancelled) := by
-  obtain ⟨hG, _⟩ := hv
-  generalize G.reqCap = c at hG
-  subst hG
+/-- the atomic tick of Model/C05Sched.lean = `begin` followed by uninterrupted `next` steps -/
+theorem C06_wheel_tick_refines (G : Geom) (s : WS) :
+    ∃ k, WF.nexts G k (WF.detach G { s := s, pc := .idle } false) = some { s := WS.tick G s, pc := .idle } :=
+  WF.fine_tick G s
+
+/-- CANCEL RETURNS TRUE IFF PENDING (wheel): wherever the worker is, Cancel(id) answers true exactly when
+the timer is in the pipeline — start request queued, linked in the wheel, in the detached chain not yet
+decided, or a periodic node between its decision and its re-arm (a one-shot timer decided for delivery
+is NOT pending any more) — and has not been cancelled before -/
+theorem C06_wheel_cancel_iff_pending (G : Geom) {x x' : WF} (hr : WFReach G x) (id : Nat) (b : Bool)
+    (hs : WF.step G x (.cl (.cancel id)) = .ok x' (.bool b)) :
+    (b = true ↔ (id ∈ x.s.f.addIds ∨ id ∈ ids x.s.w.nodes ∨ id ∈ x.pc.ids) ∧ id ∉ x.s.f.cancelled) := by
+  obtain ⟨_, s', hs', _⟩ := WF.cl_inv G hs
   have hi := hr.inv.front.refer_iff id
-  simp only [WS.step] at hs
-  split at hs
+  simp only [List.mem_append] at hi
+  simp only [WS.step] at hs'
+  split at hs'
   · rename_i hin
-    split at hs
-    · cases hs
-    · simp only [Res.ok.injEq, Out.bool.injEq] at hs
-      rw [← hs.2]; simp only [true_iff]; exact hi.mp hin
+    split at hs'
+    · cases hs'
+    · simp only [Res.ok.injEq, Out.bool.injEq] at hs'
+      rw [← hs'.2]; simp only [true_iff]; exact hi.mp hin
   · rename_i hin
-    simp only [Res.ok.injEq, Out.bool.injEq] at hs
-    rw [← hs.2]
+    simp only [Res.ok.injEq, Out.bool.injEq] at hs'
+    rw [← hs'.2]
     simp only [Bool.false_eq_true, false_iff]
     exact fun h => hin (hi.mpr h)
 
-/-- A TRUE CANCEL IS FINAL (wheel): after Cancel(id) returned true the timer is out of the table at once
-(`IsScheduled` false, `Size` one less) and, along ANY continuation — whatever order the worker
-handles the start request, the cancel request and ticks in — it is never delivered and never
-scheduled again -/
-theorem C06_wheel_cancel_final (G : Geom) (hv : Valid G) {s s1 : WS} (hr : WReach G s) (id : Nat)
-    (hs : WS.step G s (.cancel id) = .ok s1 (.bool true)) :
-    id ∉ s1.f.refer ∧ s1.f.refer.length + 1 = s.f.refer.length ∧ s1.f.log = s.f.log ∧
-    ∀ (acts : List Act) (s' : WS), WS.run G s1 acts = some s' →
-      id ∉ s'.f.refer ∧ entries s'.f.log id = entries s.f.log id := by
-  obtain ⟨hG, _⟩ := hv
-  generalize G.reqCap = c at hG
-  subst hG
-  have h1 : WInv s1 := hr.inv.step c hs
-  simp only [WS.step] at hs
-  split at hs
+/-- A TRUE CANCEL IS FINAL (wheel), at any point — also inside an expiry pass.  After Cancel(id) returned
+true: the timer is out of the table at once (`IsScheduled` false, `Size` one less), nothing else
+changed; if it was in flight at that moment it is a PERIODIC timer between its decision and its send;
+and along ANY continuation it is never scheduled again and its deliveries in the log grow by at most
+the sends that were in flight at the moment of the Cancel — by none at all if it was not in flight. -/
+theorem C06_wheel_cancel_final (G : Geom) {x x1 : WF} (hr : WFReach G x) (id : Nat)
+    (hs : WF.step G x (.cl (.cancel id)) = .ok x1 (.bool true)) :
+    id ∉ x1.s.f.refer ∧ x1.s.f.refer.length + 1 = x.s.f.refer.length ∧ x1.s.f.log = x.s.f.log ∧
+    x1.pc = x.pc ∧ x1.s.w = x.s.w ∧
+    (∀ b n ns, x.pc = .send b n ns → n.id = id → n.period > 0) ∧
+    ∀ (acts : List FAct) (x' : WF), WF.run G x1 acts = some x' →
+      id ∉ x'.s.f.refer ∧
+      (∃ new, entries x'.s.f.log id = new ++ entries x.s.f.log id ∧ new.length ≤ x.pc.inflight.count id) ∧
+      (id ∉ x.pc.inflight → entries x'.s.f.log id = entries x.s.f.log id) := by
+  have h1 : WFInv x1 := hr.inv.step G hs
+  obtain ⟨_, s', hs', rfl⟩ := WF.cl_inv G hs
+  simp only [WS.step] at hs'
+  split at hs'
   · rename_i hin
-    split at hs
-    · cases hs
-    · simp only [Res.ok.injEq, and_true] at hs
-      subst hs
-      have hc : id ∈ (s.f.cancel id).cancelled := List.mem_append_right _ (List.mem_singleton.mpr rfl)
-      refine ⟨?_, length_filter_ne hr.inv.front.refer_nodup hin, rfl, ?_⟩
+    split at hs'
+    · cases hs'
+    · simp only [Res.ok.injEq, and_true] at hs'
+      subst hs'
+      have hc : id ∈ (x.s.f.cancel id).cancelled := List.mem_append_right _ (List.mem_singleton.mpr rfl)
+      refine ⟨?_, length_filter_ne hr.inv.front.refer_nodup hin, rfl, rfl, rfl, ?_, ?_⟩
       · exact fun hm => ((h1.front.refer_iff id).mp hm).2 hc
-      · intro acts s' hrun
-        obtain ⟨c2, e2, i2⟩ := cancelled_run c id acts _ s' h1 hc hrun
-        exact ⟨fun hm => ((i2.front.refer_iff id).mp hm).2 c2, e2⟩
-  · simp only [Res.ok.injEq, Out.bool.injEq, Bool.false_eq_true, and_false] at hs
+      · intro b n ns hpc hid
+        have := hr.inv.fl_one b n ns hpc
+        rcases Nat.eq_zero_or_pos n.period with h0 | hp
+        · exact absurd (hid ▸ hin) (this h0)
+        · exact hp
+      · intro acts x' hrun
+        have hb : WBudget { x with s := { x.s with f := x.s.f.cancel id } } id (entries x.s.f.log id)
+            (x.pc.inflight.count id) := ⟨hc, [], rfl, by simp⟩
+        obtain ⟨c2, new, e2, k2⟩ := wbudget_run G acts _ x' hb hrun
+        have hinv' := (WFReach.run acts (hr.step hs) hrun).inv
+        refine ⟨fun hm => ((hinv'.front.refer_iff id).mp hm).2 c2, ⟨new, e2, by omega⟩, ?_⟩
+        intro hnf
+        have : x.pc.inflight.count id = 0 := List.count_eq_zero.mpr hnf
+        have hl : new.length = 0 := by omega
+        rw [e2, List.length_eq_zero_iff.mp hl, List.nil_append]
+  · simp only [Res.ok.injEq, Out.bool.injEq, Bool.false_eq_true, and_false] at hs'
 
-/-- A FALSE CANCEL IS A NO-OP (both schedulers): it changes nothing at all -/
-theorem C06_wheel_cancel_false_noop (G : Geom) {s s' : WS} (id : Nat)
-    (hs : WS.step G s (.cancel id) = .ok s' (.bool false)) : s' = s := by
-  simp only [WS.step] at hs
-  split at hs
-  · split at hs
-    · cases hs
-    · simp only [Res.ok.injEq, Out.bool.injEq, Bool.true_eq_false, and_false] at hs
-  · simp only [Res.ok.injEq, and_true] at hs; exact hs.symm
+/-- A FALSE CANCEL IS A NO-OP (wheel): it changes nothing at all, wherever the worker is -/
+theorem C06_wheel_cancel_false_noop (G : Geom) {x x' : WF} (id : Nat)
+    (hs : WF.step G x (.cl (.cancel id)) = .ok x' (.bool false)) : x' = x := by
+  obtain ⟨_, s', hs', rfl⟩ := WF.cl_inv G hs
+  simp only [WS.step] at hs'
+  split at hs'
+  · split at hs'
+    · cases hs'
+    · simp only [Res.ok.injEq, Out.bool.injEq, Bool.true_eq_false, and_false] at hs'
+  · simp only [Res.ok.injEq, and_true] at hs'; subst hs'; rfl
 
-/-- NO CRASH (wheel): in no reachable state does any action reach a panic site (`bucket.addNode` on a
-linked node, nil bucket, bucket mismatch), whatever order start requests, cancel requests and ticks
-were handled in -/
-theorem C06_wheel_no_crash (G : Geom) (hv : Valid G) {s : WS} (hr : WReach G s) (a : Act) :
-    WS.step G s a ≠ .panic := by
-  obtain ⟨hG, _⟩ := hv
-  generalize G.reqCap = c at hG
-  subst hG
+/-- NO CRASH (wheel): in no reachable state — the worker idle or anywhere inside a tick — does any step reach
+a panic site (`bucket.addNode` on a linked node, nil bucket, bucket mismatch) -/
+theorem C06_wheel_no_crash (G : Geom) {x : WF} (hr : WFReach G x) (a : FAct) : WF.step G x a ≠ .panic := by
   intro hp
   have h := hr.inv
-  cases a with
-  | after d => simp only [WS.step] at hp; split at hp <;> cases hp
-  | every p => simp only [WS.step] at hp; split at hp <;> cases hp
-  | cancel j =>
-    simp only [WS.step] at hp
-    split at hp
-    · split at hp <;> cases hp
-    · cases hp
-  | add =>
-    simp only [WS.step] at hp
-    split at hp
-    · cases hp
-    · rename_i r q hq
-      split at hp
-      · cases hp
-      · split at hp
+  have addOK : x.pc = .idle → WS.step G x.s .add ≠ .panic := by
+    intro hpc hq
+    simp only [WS.step] at hq
+    split at hq
+    · cases hq
+    · rename_i r q hqq
+      split at hq
+      · cases hq
+      · split at hq
         · rename_i hany
           obtain ⟨n, hn, hi⟩ := List.any_eq_true.mp hany
           simp only [beq_iff_eq] at hi
           have hnd := h.front.nodup
           rw [List.nodup_append] at hnd
-          exact hnd.2.2 r.id (by simp [Front.addIds, hq]) r.id (mem_ids.mpr ⟨n, hn, hi⟩) rfl
-        · cases hp
-  | del => simp only [WS.step] at hp; split at hp <;> cases hp
-  | tick => simp only [WS.step] at hp; cases hp
-  | clock n => simp only [WS.step] at hp; cases hp
+          exact hnd.2.2 r.id (by simp [Front.addIds, hqq]) r.id
+            (List.mem_append_left _ (mem_ids.mpr ⟨n, hn, hi⟩)) rfl
+        · cases hq
+  cases a with
+  | cl a =>
+    simp only [WF.step] at hp
+    split at hp
+    · rename_i hc
+      cases hq : WS.step G x.s a with
+      | ok s' o => rw [hq] at hp; simp [WF.lift] at hp
+      | blocked => rw [hq] at hp; simp [WF.lift] at hp
+      | panic =>
+        cases a with
+        | after d => simp only [WS.step] at hq; split at hq <;> cases hq
+        | every p => simp only [WS.step] at hq; split at hq <;> cases hq
+        | cancel j =>
+          simp only [WS.step] at hq
+          split at hq
+          · split at hq <;> cases hq
+          · cases hq
+        | clock n => simp only [WS.step] at hq; cases hq
+        | add => simp [Act.isClient] at hc
+        | del => simp [Act.isClient] at hc
+        | tick => simp [Act.isClient] at hc
+    · cases hp
+  | add =>
+    simp only [WF.step] at hp
+    split at hp
+    · rename_i hpc
+      cases hq : WS.step G x.s .add with
+      | ok s' o => rw [hq] at hp; simp [WF.lift] at hp
+      | blocked => rw [hq] at hp; simp [WF.lift] at hp
+      | panic => exact addOK hpc hq
+    all_goals cases hp
+  | del =>
+    simp only [WF.step] at hp
+    split at hp
+    · cases hq : WS.step G x.s .del with
+      | ok s' o => rw [hq] at hp; simp [WF.lift] at hp
+      | blocked => rw [hq] at hp; simp [WF.lift] at hp
+      | panic => simp only [WS.step] at hq; split at hq <;> cases hq
+    all_goals cases hp
+  | begin => simp only [WF.step] at hp; split at hp <;> cases hp
+  | next =>
+    simp only [WF.step] at hp
+    split at hp
+    · cases hp
+    · split at hp
+      · cases hp
+      · split at hp <;> cases hp
+    · split at hp <;> cases hp
+    · cases hp
+    · cases hp
 
-/-- IDS ARE UNIQUE (wheel): the id a start call returns is new — not in the table, not queued, not linked,
-never cancelled — and is in the table afterwards -/
-theorem C06_wheel_ids_unique (G : Geom) (hv : Valid G) {s s' : WS} (hr : WReach G s) (a : Act)
-    (ha : (∃ d, a = .after d) ∨ (∃ p, a = .every p)) (i : Nat) (hs : WS.step G s a = .ok s' (.id i)) :
-    i ∉ s.f.refer ∧ i ∉ s.f.addIds ∧ i ∉ ids s.w.nodes ∧ i ∉ s.f.cancelled ∧ i ∈ s'.f.refer := by
-  obtain ⟨hG, _⟩ := hv
-  generalize G.reqCap = c at hG
-  subst hG
+/-- IDS ARE UNIQUE (wheel): the id a start call returns — made at any point, also inside a tick — is new:
+not in the table, not queued, not linked, not in the worker's hands, not in flight, never cancelled;
+and it is in the table afterwards -/
+theorem C06_wheel_ids_unique (G : Geom) {x x' : WF} (hr : WFReach G x) (a : Act)
+    (ha : (∃ d, a = .after d) ∨ (∃ p, a = .every p)) (i : Nat) (hs : WF.step G x (.cl a) = .ok x' (.id i)) :
+    i ∉ x.s.f.refer ∧ i ∉ x.s.f.addIds ∧ i ∉ ids x.s.w.nodes ∧ i ∉ x.pc.ids ∧ i ∉ x.pc.inflight ∧
+    i ∉ x.s.f.cancelled ∧ i ∈ x'.s.f.refer := by
   have h := hr.inv.front
-  have hid : i = s.f.nextId + 1 ∧ i ∈ s'.f.refer := by
+  obtain ⟨_, s', hs', rfl⟩ := WF.cl_inv G hs
+  have hid : i = x.s.f.nextId + 1 ∧ i ∈ s'.f.refer := by
     rcases ha with ⟨d, rfl⟩ | ⟨p, rfl⟩ <;>
-    · simp only [WS.step] at hs
-      split at hs
-      · cases hs
-      · simp only [Res.ok.injEq, Out.id.injEq] at hs
-        obtain ⟨rfl, rfl⟩ := hs
+    · simp only [WS.step] at hs'
+      split at hs'
+      · cases hs'
+      · simp only [Res.ok.injEq, Out.id.injEq] at hs'
+        obtain ⟨rfl, rfl⟩ := hs'
         exact ⟨nextID_eq _ _ h, List.mem_append_right _ (List.mem_singleton.mpr rfl)⟩
   obtain ⟨rfl, h5⟩ := hid
-  refine ⟨fun hm => ?_, fun hm => ?_, fun hm => ?_, fun hm => ?_, h5⟩
+  refine ⟨fun hm => ?_, fun hm => ?_, fun hm => ?_, fun hm => ?_, fun hm => ?_, fun hm => ?_, h5⟩
   · have := h.refer_le _ hm; omega
   · have := h.addq_le _ hm; omega
-  · have := h.linked_le _ hm; omega
+  · have := h.linked_le _ (List.mem_append_left _ hm); omega
+  · have := h.linked_le _ (List.mem_append_right _ hm); omega
+  · have := hr.inv.fl_le _ hm; omega
   · have := h.canc_le _ hm; omega
 
-/-- OTHERS UNTOUCHED (wheel): handling a cancel request unlinks only nodes of a CANCELLED timer — every
-node of an uncancelled timer stays linked — and it touches neither the table nor the log; the
-client's Cancel(id) changes no other timer's table entry and nothing in the wheel -/
-theorem C06_wheel_others_untouched (G : Geom) (hv : Valid G) {s s' : WS} (hr : WReach G s) :
-    (∀ o, WS.step G s .del = .ok s' o →
-      (∀ n ∈ s.w.nodes, n.id ∉ s.f.cancelled → n ∈ s'.w.nodes) ∧ s'.f.refer = s.f.refer ∧ s'.f.log = s.f.log) ∧
-    (∀ id o, WS.step G s (.cancel id) = .ok s' o →
-      s'.w = s.w ∧ s'.f.log = s.f.log ∧ ∀ j, j ≠ id → (j ∈ s'.f.refer ↔ j ∈ s.f.refer)) := by
-  obtain ⟨hG, _⟩ := hv
-  generalize G.reqCap = c at hG
-  subst hG
-  refine ⟨fun o hs => ?_, fun id o hs => ?_⟩
-  · simp only [WS.step] at hs
+/-- OTHERS UNTOUCHED (wheel): handling a cancel request unlinks only nodes of a CANCELLED timer and touches
+neither table nor log; the client's Cancel(id) changes no other timer's table entry, nothing in the
+wheel and nothing in the worker's hands; a worker step inside a tick changes the table entry of at
+most the one node it is deciding about and no cancelled mark -/
+theorem C06_wheel_others_untouched (G : Geom) {x x' : WF} (hr : WFReach G x) :
+    (∀ o, WF.step G x .del = .ok x' o →
+      (∀ n ∈ x.s.w.nodes, n.id ∉ x.s.f.cancelled → n ∈ x'.s.w.nodes) ∧ x'.s.f.refer = x.s.f.refer ∧
+      x'.s.f.log = x.s.f.log) ∧
+    (∀ id o, WF.step G x (.cl (.cancel id)) = .ok x' o →
+      x'.s.w = x.s.w ∧ x'.pc = x.pc ∧ x'.s.f.log = x.s.f.log ∧ ∀ j, j ≠ id → (j ∈ x'.s.f.refer ↔ j ∈ x.s.f.refer)) ∧
+    (∀ o, WF.step G x .next = .ok x' o →
+      x'.s.f.cancelled = x.s.f.cancelled ∧
+      ∀ j, (∀ b n ns, x.pc = .pass b (n :: ns) → j ≠ n.id) → (j ∈ x'.s.f.refer ↔ j ∈ x.s.f.refer)) := by
+  refine ⟨fun o hs => ?_, fun id o hs => ?_, fun o hs => ?_⟩
+  · simp only [WF.step] at hs
     split at hs
-    · cases hs; exact ⟨fun n hn _ => hn, rfl, rfl⟩
-    · rename_i i q hq
-      cases hs
-      have hi : i ∈ s.f.cancelled := hr.inv.front.delq i (by rw [hq]; exact List.mem_cons_self ..)
-      refine ⟨fun n hn hl => List.mem_filter.mpr ⟨hn, ?_⟩, rfl, rfl⟩
-      simp only [ne_eq, decide_eq_true_eq]
-      exact fun e => hl (e ▸ hi)
-  · simp only [WS.step] at hs
-    split at hs
-    · split at hs
-      · cases hs
-      · cases hs
-        refine ⟨rfl, rfl, fun j hj => ?_⟩
+    · cases hq : WS.step G x.s .del with
+      | ok s' o' =>
+        rw [hq] at hs
+        simp only [WF.lift, Res.ok.injEq] at hs
+        obtain ⟨rfl, _⟩ := hs
+        simp only [WS.step] at hq
+        split at hq
+        · cases hq; exact ⟨fun n hn _ => hn, rfl, rfl⟩
+        · rename_i i q hqq
+          cases hq
+          have hi : i ∈ x.s.f.cancelled := hr.inv.front.delq i (by rw [hqq]; exact List.mem_cons_self ..)
+          refine ⟨fun n hn hl => List.mem_filter.mpr ⟨hn, ?_⟩, rfl, rfl⟩
+          simp only [ne_eq, decide_eq_true_eq]
+          exact fun e => hl (e ▸ hi)
+      | blocked => rw [hq] at hs; simp [WF.lift] at hs
+      | panic => rw [hq] at hs; simp [WF.lift] at hs
+    all_goals cases hs
+  · obtain ⟨_, s', hs', rfl⟩ := WF.cl_inv G hs
+    simp only [WS.step] at hs'
+    split at hs'
+    · split at hs'
+      · cases hs'
+      · cases hs'
+        refine ⟨rfl, rfl, rfl, fun j hj => ?_⟩
         simp only [Front.cancel, List.mem_filter, ne_eq, decide_eq_true_eq, hj, not_false_eq_true, and_true]
-    · cases hs; exact ⟨rfl, rfl, fun _ _ => Iff.rfl⟩
+    · cases hs'; exact ⟨rfl, rfl, rfl, fun _ _ => Iff.rfl⟩
+  · simp only [WF.step] at hs
+    split at hs
+    · cases hs
+    · rename_i b n ns hpc
+      split at hs
+      · cases hs; exact ⟨rfl, fun _ _ => Iff.rfl⟩
+      · split at hs
+        · cases hs; exact ⟨rfl, fun _ _ => Iff.rfl⟩
+        · cases hs
+          refine ⟨rfl, fun j hj => ?_⟩
+          have := hj b n ns hpc
+          simp only [Front.drop, List.mem_filter, ne_eq, decide_eq_true_eq, this, not_false_eq_true, and_true]
+    · split at hs <;> cases hs <;> exact ⟨rfl, fun _ _ => Iff.rfl⟩
+    · cases hs; exact ⟨rfl, fun _ _ => Iff.rfl⟩
+    · cases hs; exact ⟨rfl, fun _ _ => Iff.rfl⟩
 
-/-- BOOKKEEPING (wheel): in every reachable state the table has no duplicate and holds exactly the pending
-timers, so `Size()` is their number and `IsScheduled(id)` is "id is pending" -/
-theorem C06_wheel_bookkeeping (G : Geom) (hv : Valid G) {s : WS} (hr : WReach G s) :
-    s.f.refer.Nodup ∧ ∀ id, id ∈ s.f.refer ↔ (id ∈ s.f.addIds ∨ id ∈ ids s.w.nodes) ∧ id ∉ s.f.cancelled := by
-  obtain ⟨hG, _⟩ := hv
-  generalize G.reqCap = c at hG
-  subst hG
-  exact ⟨hr.inv.front.refer_nodup, hr.inv.front.refer_iff⟩
+/-- BOOKKEEPING (wheel): at every point, also inside an expiry pass, the table has no duplicate and holds
+exactly the pending timers, so `Size()` is their number and `IsScheduled(id)` is "id is pending" -/
+theorem C06_wheel_bookkeeping (G : Geom) {x : WF} (hr : WFReach G x) :
+    x.s.f.refer.Nodup ∧
+    ∀ id, id ∈ x.s.f.refer ↔ (id ∈ x.s.f.addIds ∨ id ∈ ids x.s.w.nodes ∨ id ∈ x.pc.ids) ∧ id ∉ x.s.f.cancelled := by
+  refine ⟨hr.inv.front.refer_nodup, fun id => ?_⟩
+  have := hr.inv.front.refer_iff id
+  simpa only [List.mem_append, or_assoc] using this
 
-/-- NO STALL (wheel): the worker's steps are always enabled (never blocked, and by `no_crash` never a
-panic); a client call can only wait for room in its request channel -/
-theorem C06_wheel_no_stall (G : Geom) (s : WS) (a : Act) (hb : WS.step G s a = .blocked) :
-    ((∃ d, a = .after d) ∨ (∃ p, a = .every p)) ∧ G.reqCap ≤ s.f.addQ.length ∨
-    (∃ id, a = .cancel id) ∧ G.reqCap ≤ s.f.delQ.length := by
-  cases a with
-  | after d =>
-    simp only [WS.step] at hb
-    split at hb
-    · rename_i hf; exact .inl ⟨.inl ⟨d, rfl⟩, hf⟩
-    · cases hb
-  | every p =>
-    simp only [WS.step] at hb
-    split at hb
-    · rename_i hf; exact .inl ⟨.inr ⟨p, rfl⟩, hf⟩
-    · cases hb
-  | cancel j =>
-    simp only [WS.step] at hb
-    split at hb
-    · split at hb
-      · rename_i hf; exact .inr ⟨⟨j, rfl⟩, hf⟩
-      · cases hb
-    · cases hb
-  | add =>
-    simp only [WS.step] at hb
-    split at hb
-    · cases hb
-    · split at hb
-      · cases hb
-      · split at hb <;> cases hb
-  | del => simp only [WS.step] at hb; split at hb <;> cases hb
-  | tick => simp only [WS.step] at hb; cases hb
-  | clock n => simp only [WS.step] at hb; cases hb
+/-- NO STALL (wheel): the worker always has an enabled step (between ticks it can enter a tick, inside a
+tick its next step is enabled and — by `no_crash` — no panic), and a client call can only wait for room
+in its request channel -/
+theorem C06_wheel_no_stall (G : Geom) (x : WF) :
+    ((∃ x', WF.step G x .begin = .ok x' .done) ∨ (∃ x', WF.step G x .next = .ok x' .done)) ∧
+    (∀ a, a.isClient = true → WF.step G x (.cl a) = .blocked →
+      ((∃ d, a = .after d) ∨ (∃ p, a = .every p)) ∧ G.reqCap ≤ x.s.f.addQ.length ∨
+      (∃ id, a = .cancel id) ∧ G.reqCap ≤ x.s.f.delQ.length) := by
+  refine ⟨?_, ?_⟩
+  · rcases x with ⟨s, pc⟩
+    cases pc with
+    | idle => exact .inl ⟨_, rfl⟩
+    | pass b chain =>
+      right
+      cases chain with
+      | nil => cases b <;> exact ⟨_, rfl⟩
+      | cons n ns =>
+        simp only [WF.step]
+        split
+        · exact ⟨_, rfl⟩
+        · split <;> exact ⟨_, rfl⟩
+    | send b n ns =>
+      right
+      simp only [WF.step]
+      split <;> exact ⟨_, rfl⟩
+  · intro a hc hb
+    simp only [WF.step, hc, if_true] at hb
+    cases hq : WS.step G x.s a with
+    | ok s' o => rw [hq] at hb; simp [WF.lift] at hb
+    | panic => rw [hq] at hb; simp [WF.lift] at hb
+    | blocked =>
+      cases a with
+      | after d =>
+        simp only [WS.step] at hq
+        split at hq
+        · rename_i hf; exact .inl ⟨.inl ⟨d, rfl⟩, hf⟩
+        · cases hq
+      | every p =>
+        simp only [WS.step] at hq
+        split at hq
+        · rename_i hf; exact .inl ⟨.inr ⟨p, rfl⟩, hf⟩
+        · cases hq
+      | cancel j =>
+        simp only [WS.step] at hq
+        split at hq
+        · split at hq
+          · rename_i hf; exact .inr ⟨⟨j, rfl⟩, hf⟩
+          · cases hq
+        · cases hq
+      | clock n => simp only [WS.step] at hq; cases hq
+      | add => simp [Act.isClient] at hc
+      | del => simp [Act.isClient] at hc
+      | tick => simp [Act.isClient] at hc
+
+/-- A TICK ALWAYS ENDS (wheel): `WF.measure` is 0 exactly when the worker is between ticks, every worker step
+inside a tick decreases it, and no client call changes it (nor the worker's position) — so a tick is over
+after at most `measure` worker steps, however many client calls are interleaved -/
+theorem C06_wheel_tick_terminates (G : Geom) {x x' : WF} {o : Out} :
+    (x.measure = 0 ↔ x.pc = .idle) ∧
+    (WF.step G x .next = .ok x' o → x'.measure < x.measure) ∧
+    (∀ a, WF.step G x (.cl a) = .ok x' o → x'.measure = x.measure ∧ x'.pc = x.pc) := by
+  refine ⟨?_, WF.next_measure G, fun a => WF.client_measure G⟩
+  rcases x with ⟨s, pc⟩
+  cases pc with
+  | idle => simp [WF.measure]
+  | pass b c => cases b <;> simp [WF.measure]
+  | send b n c => cases b <;> simp [WF.measure]
 
 /-! ## heap -/
 
-theorem C06_heap_cancel_iff_pending (G : Geom) {s s' : HS} (hr : HReach G s) (id : Nat) (b : Bool)
-    (hs : HS.step G s (.cancel id) = .ok s' (.bool b)) :
-    (b = true ↔ (id ∈ s.f.addIds ∨ id ∈ hids s.heap) ∧ id ∉ s.f.cancelled) := by
+/-- the heap's atomic tick = `begin` followed by uninterrupted `next` steps -/
+theorem C06_heap_tick_refines (G : Geom) (s s' : HS) (h : HS.tick s = some s') :
+    ∃ k, HF.nexts G k { s := s, pc := .trig s.now s.f.nextId [] } = some { s := s', pc := .idle } :=
+  HF.fine_tick G s s' h
+
+/-- CANCEL RETURNS TRUE IFF PENDING (heap): a periodic timer decided for delivery is re-armed in the heap and
+stays pending; a one-shot timer decided for delivery was popped and is NOT pending any more -/
+theorem C06_heap_cancel_iff_pending (G : Geom) {x x' : HF} (hr : HFReach G x) (id : Nat) (b : Bool)
+    (hs : HF.step G x (.cl (.cancel id)) = .ok x' (.bool b)) :
+    (b = true ↔ (id ∈ x.s.f.addIds ∨ id ∈ hids x.s.heap) ∧ id ∉ x.s.f.cancelled) := by
+  obtain ⟨_, s', hs', _⟩ := HF.cl_inv G hs
   have hi := hr.inv.front.refer_iff id
-  simp only [HS.step] at hs
-  split at hs
+  simp only [HS.step] at hs'
+  split at hs'
   · rename_i hin
-    split at hs
-    · cases hs
-    · simp only [Res.ok.injEq, Out.bool.injEq] at hs
-      rw [← hs.2]; simp only [true_iff]; exact hi.mp hin
+    split at hs'
+    · cases hs'
+    · simp only [Res.ok.injEq, Out.bool.injEq] at hs'
+      rw [← hs'.2]; simp only [true_iff]; exact hi.mp hin
   · rename_i hin
-    simp only [Res.ok.injEq, Out.bool.injEq] at hs
-    rw [← hs.2]
+    simp only [Res.ok.injEq, Out.bool.injEq] at hs'
+    rw [← hs'.2]
     simp only [Bool.false_eq_true, false_iff]
     exact fun h => hin (hi.mpr h)
 
-theorem C06_heap_cancel_final (G : Geom) {s s1 : HS} (hr : HReach G s) (id : Nat)
-    (hs : HS.step G s (.cancel id) = .ok s1 (.bool true)) :
-    id ∉ s1.f.refer ∧ s1.f.refer.length + 1 = s.f.refer.length ∧ s1.f.log = s.f.log ∧
-    ∀ (acts : List Act) (s' : HS), HS.run G s1 acts = some s' →
-      id ∉ s'.f.refer ∧ entries s'.f.log id = entries s.f.log id := by
-  have h1 : HInv s1 := hr.inv.step G hs
-  simp only [HS.step] at hs
-  split at hs
+/-- A TRUE CANCEL IS FINAL (heap), at any point — also between two decisions of `trigger` and between the
+decisions and the sends.  If the timer was in flight at that moment it is still in the heap (a re-armed
+PERIODIC timer); along ANY continuation it is never scheduled again and its deliveries in the log
+grow by at most the sends in flight at the moment of the Cancel — by none if it was not in flight. -/
+theorem C06_heap_cancel_final (G : Geom) {x x1 : HF} (hr : HFReach G x) (id : Nat)
+    (hs : HF.step G x (.cl (.cancel id)) = .ok x1 (.bool true)) :
+    id ∉ x1.s.f.refer ∧ x1.s.f.refer.length + 1 = x.s.f.refer.length ∧ x1.s.f.log = x.s.f.log ∧
+    x1.pc = x.pc ∧ x1.s.heap = x.s.heap ∧
+    (id ∈ x.pc.inflight → id ∈ hids x.s.heap) ∧
+    ∀ (acts : List FAct) (x' : HF), HF.run G x1 acts = some x' →
+      id ∉ x'.s.f.refer ∧
+      (∃ new, entries x'.s.f.log id = new ++ entries x.s.f.log id ∧ new.length ≤ x.pc.inflight.count id) ∧
+      (id ∉ x.pc.inflight → entries x'.s.f.log id = entries x.s.f.log id) := by
+  have h1 : HFInv x1 := hr.inv.step G hs
+  obtain ⟨_, s', hs', rfl⟩ := HF.cl_inv G hs
+  simp only [HS.step] at hs'
+  split at hs'
   · rename_i hin
-    split at hs
-    · cases hs
-    · simp only [Res.ok.injEq, and_true] at hs
-      subst hs
-      have hc : id ∈ (s.f.cancel id).cancelled := List.mem_append_right _ (List.mem_singleton.mpr rfl)
-      refine ⟨?_, length_filter_ne hr.inv.front.refer_nodup hin, rfl, ?_⟩
+    split at hs'
+    · cases hs'
+    · simp only [Res.ok.injEq, and_true] at hs'
+      subst hs'
+      have hc : id ∈ (x.s.f.cancel id).cancelled := List.mem_append_right _ (List.mem_singleton.mpr rfl)
+      refine ⟨?_, length_filter_ne hr.inv.front.refer_nodup hin, rfl, rfl, rfl, ?_, ?_⟩
       · exact fun hm => ((h1.front.refer_iff id).mp hm).2 hc
-      · intro acts s' hrun
-        obtain ⟨c2, e2, i2⟩ := hcancelled_run G id acts _ s' h1 hc hrun
-        exact ⟨fun hm => ((i2.front.refer_iff id).mp hm).2 c2, e2⟩
-  · simp only [Res.ok.injEq, Out.bool.injEq, Bool.false_eq_true, and_false] at hs
+      · intro hfl
+        rcases ((hr.inv.front.refer_iff id).mp hin).1 with hq | hl
+        · exact absurd hq (hr.inv.fl_q id hfl)
+        · exact hl
+      · intro acts x' hrun
+        have hb : HBudget { x with s := { x.s with f := x.s.f.cancel id } } id (entries x.s.f.log id)
+            (x.pc.inflight.count id) := ⟨hc, [], rfl, by simp⟩
+        obtain ⟨c2, new, e2, k2⟩ := hbudget_run G acts _ x' hb hrun
+        have hinv' := (HFReach.run acts (hr.step hs) hrun).inv
+        refine ⟨fun hm => ((hinv'.front.refer_iff id).mp hm).2 c2, ⟨new, e2, by omega⟩, ?_⟩
+        intro hnf
+        have : x.pc.inflight.count id = 0 := List.count_eq_zero.mpr hnf
+        have hl : new.length = 0 := by omega
+        rw [e2, List.length_eq_zero_iff.mp hl, List.nil_append]
+  · simp only [Res.ok.injEq, Out.bool.injEq, Bool.false_eq_true, and_false] at hs'
 
-theorem C06_heap_cancel_false_noop (G : Geom) {s s' : HS} (id : Nat)
-    (hs : HS.step G s (.cancel id) = .ok s' (.bool false)) : s' = s := by
-  simp only [HS.step] at hs
-  split at hs
-  · split at hs
-    · cases hs
-    · simp only [Res.ok.injEq, Out.bool.injEq, Bool.true_eq_false, and_false] at hs
-  · simp only [Res.ok.injEq, and_true] at hs; exact hs.symm
+theorem C06_heap_cancel_false_noop (G : Geom) {x x' : HF} (id : Nat)
+    (hs : HF.step G x (.cl (.cancel id)) = .ok x' (.bool false)) : x' = x := by
+  obtain ⟨_, s', hs', rfl⟩ := HF.cl_inv G hs
+  simp only [HS.step] at hs'
+  split at hs'
+  · split at hs'
+    · cases hs'
+    · simp only [Res.ok.injEq, Out.bool.injEq, Bool.true_eq_false, and_false] at hs'
+  · simp only [Res.ok.injEq, and_true] at hs'; subst hs'; rfl
 
-/-- NO CRASH (heap): `heap.Remove` is only called with an index inside the heap (model: a cancel request for
-a timer that is not in the heap is a no-op), and `trigger` always terminates (no spin on `id > maxId`,
-fuel never runs out), whatever order start requests, cancel requests and ticks were handled in -/
-theorem C06_heap_no_crash (G : Geom) {s : HS} (hr : HReach G s) (a : Act) :
-    HS.step G s a ≠ .panic := by
+/-- NO CRASH (heap): `heap.Remove` is only called with an index inside the heap (model: a cancel request for a
+timer that is not in the heap is a no-op) and `trigger` never spins on `id > maxId`: new timers started
+while the worker is inside `trigger` are in the request queue, not in the heap -/
+theorem C06_heap_no_crash (G : Geom) {x : HF} (hr : HFReach G x) (a : FAct) : HF.step G x a ≠ .panic := by
   intro hp
+  have h := hr.inv
   cases a with
-  | after d => simp only [HS.step] at hp; split at hp <;> cases hp
-  | every p => simp only [HS.step] at hp; split at hp <;> cases hp
-  | cancel j =>
-    simp only [HS.step] at hp
+  | cl a =>
+    simp only [HF.step] at hp
     split at hp
-    · split at hp <;> cases hp
+    · rename_i hc
+      cases hq : HS.step G x.s a with
+      | ok s' o => rw [hq] at hp; simp [HF.lift] at hp
+      | blocked => rw [hq] at hp; simp [HF.lift] at hp
+      | panic =>
+        cases a with
+        | after d => simp only [HS.step] at hq; split at hq <;> cases hq
+        | every p => simp only [HS.step] at hq; split at hq <;> cases hq
+        | cancel j =>
+          simp only [HS.step] at hq
+          split at hq
+          · split at hq <;> cases hq
+          · cases hq
+        | clock n => simp only [HS.step] at hq; cases hq
+        | add => simp [Act.isClient] at hc
+        | del => simp [Act.isClient] at hc
+        | tick => simp [Act.isClient] at hc
     · cases hp
   | add =>
-    simp only [HS.step] at hp
+    simp only [HF.step] at hp
+    split at hp
+    · cases hq : HS.step G x.s .add with
+      | ok s' o => rw [hq] at hp; simp [HF.lift] at hp
+      | blocked => rw [hq] at hp; simp [HF.lift] at hp
+      | panic =>
+        simp only [HS.step] at hq
+        split at hq
+        · cases hq
+        · split at hq <;> cases hq
+    all_goals cases hp
+  | del =>
+    simp only [HF.step] at hp
+    split at hp
+    · cases hq : HS.step G x.s .del with
+      | ok s' o => rw [hq] at hp; simp [HF.lift] at hp
+      | blocked => rw [hq] at hp; simp [HF.lift] at hp
+      | panic => simp only [HS.step] at hq; split at hq <;> cases hq
+    all_goals cases hp
+  | begin => simp only [HF.step] at hp; split at hp <;> cases hp
+  | next =>
+    simp only [HF.step] at hp
     split at hp
     · cases hp
-    · split at hp <;> cases hp
-  | del => simp only [HS.step] at hp; split at hp <;> cases hp
-  | tick =>
-    simp only [HS.step] at hp
-    obtain ⟨s', r0, _⟩ := HS.tick_spec s hr.inv
-    rw [r0] at hp
-    cases hp
-  | clock n => simp only [HS.step] at hp; cases hp
+    · rename_i now maxId exp hpc
+      split at hp
+      · cases hp
+      · rename_i n rest hh
+        split at hp
+        · cases hp
+        · split at hp
+          · rename_i hgt
+            have := h.trig_le now maxId exp hpc n (by rw [hh]; exact List.mem_cons_self ..)
+            omega
+          · split at hp
+            · cases hp
+            · split at hp <;> cases hp
+    · cases hp
+    · cases hp
 
-theorem C06_heap_ids_unique (G : Geom) {s s' : HS} (hr : HReach G s) (a : Act)
-    (ha : (∃ d, a = .after d) ∨ (∃ p, a = .every p)) (i : Nat) (hs : HS.step G s a = .ok s' (.id i)) :
-    i ∉ s.f.refer ∧ i ∉ s.f.addIds ∧ i ∉ hids s.heap ∧ i ∉ s.f.cancelled ∧ i ∈ s'.f.refer := by
+theorem C06_heap_ids_unique (G : Geom) {x x' : HF} (hr : HFReach G x) (a : Act)
+    (ha : (∃ d, a = .after d) ∨ (∃ p, a = .every p)) (i : Nat) (hs : HF.step G x (.cl a) = .ok x' (.id i)) :
+    i ∉ x.s.f.refer ∧ i ∉ x.s.f.addIds ∧ i ∉ hids x.s.heap ∧ i ∉ x.pc.inflight ∧ i ∉ x.s.f.cancelled ∧
+    i ∈ x'.s.f.refer := by
   have h := hr.inv.front
-  have hid : i = s.f.nextId + 1 ∧ i ∈ s'.f.refer := by
+  obtain ⟨_, s', hs', rfl⟩ := HF.cl_inv G hs
+  have hid : i = x.s.f.nextId + 1 ∧ i ∈ s'.f.refer := by
     rcases ha with ⟨d, rfl⟩ | ⟨p, rfl⟩ <;>
-    · simp only [HS.step] at hs
-      split at hs
-      · cases hs
-      · simp only [Res.ok.injEq, Out.id.injEq] at hs
-        obtain ⟨rfl, rfl⟩ := hs
+    · simp only [HS.step] at hs'
+      split at hs'
+      · cases hs'
+      · simp only [Res.ok.injEq, Out.id.injEq] at hs'
+        obtain ⟨rfl, rfl⟩ := hs'
         exact ⟨nextID_eq _ _ h, List.mem_append_right _ (List.mem_singleton.mpr rfl)⟩
   obtain ⟨rfl, h5⟩ := hid
-  refine ⟨fun hm => ?_, fun hm => ?_, fun hm => ?_, fun hm => ?_, h5⟩
+  refine ⟨fun hm => ?_, fun hm => ?_, fun hm => ?_, fun hm => ?_, fun hm => ?_, h5⟩
   · have := h.refer_le _ hm; omega
   · have := h.addq_le _ hm; omega
   · have := h.linked_le _ hm; omega
+  · have := hr.inv.fl_le _ hm; omega
   · have := h.canc_le _ hm; omega
 
-theorem C06_heap_others_untouched (G : Geom) {s s' : HS} (hr : HReach G s) :
-    (∀ o, HS.step G s .del = .ok s' o →
-      (∀ n ∈ s.heap, n.id ∉ s.f.cancelled → n ∈ s'.heap) ∧ s'.f.refer = s.f.refer ∧ s'.f.log = s.f.log) ∧
-    (∀ id o, HS.step G s (.cancel id) = .ok s' o →
-      s'.heap = s.heap ∧ s'.f.log = s.f.log ∧ ∀ j, j ≠ id → (j ∈ s'.f.refer ↔ j ∈ s.f.refer)) := by
-  refine ⟨fun o hs => ?_, fun id o hs => ?_⟩
-  · simp only [HS.step] at hs
+theorem C06_heap_others_untouched (G : Geom) {x x' : HF} (hr : HFReach G x) :
+    (∀ o, HF.step G x .del = .ok x' o →
+      (∀ n ∈ x.s.heap, n.id ∉ x.s.f.cancelled → n ∈ x'.s.heap) ∧ x'.s.f.refer = x.s.f.refer ∧
+      x'.s.f.log = x.s.f.log) ∧
+    (∀ id o, HF.step G x (.cl (.cancel id)) = .ok x' o →
+      x'.s.heap = x.s.heap ∧ x'.pc = x.pc ∧ x'.s.f.log = x.s.f.log ∧
+      ∀ j, j ≠ id → (j ∈ x'.s.f.refer ↔ j ∈ x.s.f.refer)) ∧
+    (∀ o, HF.step G x .next = .ok x' o →
+      x'.s.f.cancelled = x.s.f.cancelled ∧
+      ∀ j, (∀ n rest, x.s.heap = n :: rest → j ≠ n.id) → (j ∈ x'.s.f.refer ↔ j ∈ x.s.f.refer)) := by
+  refine ⟨fun o hs => ?_, fun id o hs => ?_, fun o hs => ?_⟩
+  · simp only [HF.step] at hs
     split at hs
-    · cases hs; exact ⟨fun n hn _ => hn, rfl, rfl⟩
-    · rename_i i q hq
-      cases hs
-      have hi : i ∈ s.f.cancelled := hr.inv.front.delq i (by rw [hq]; exact List.mem_cons_self ..)
-      refine ⟨fun n hn hl => List.mem_filter.mpr ⟨hn, ?_⟩, rfl, rfl⟩
-      simp only [ne_eq, decide_eq_true_eq]
-      exact fun e => hl (e ▸ hi)
-  · simp only [HS.step] at hs
-    split at hs
-    · split at hs
-      · cases hs
-      · cases hs
-        refine ⟨rfl, rfl, fun j hj => ?_⟩
+    · cases hq : HS.step G x.s .del with
+      | ok s' o' =>
+        rw [hq] at hs
+        simp only [HF.lift, Res.ok.injEq] at hs
+        obtain ⟨rfl, _⟩ := hs
+        simp only [HS.step] at hq
+        split at hq
+        · cases hq; exact ⟨fun n hn _ => hn, rfl, rfl⟩
+        · rename_i i q hqq
+          cases hq
+          have hi : i ∈ x.s.f.cancelled := hr.inv.front.delq i (by rw [hqq]; exact List.mem_cons_self ..)
+          refine ⟨fun n hn hl => List.mem_filter.mpr ⟨hn, ?_⟩, rfl, rfl⟩
+          simp only [ne_eq, decide_eq_true_eq]
+          exact fun e => hl (e ▸ hi)
+      | blocked => rw [hq] at hs; simp [HF.lift] at hs
+      | panic => rw [hq] at hs; simp [HF.lift] at hs
+    all_goals cases hs
+  · obtain ⟨_, s', hs', rfl⟩ := HF.cl_inv G hs
+    simp only [HS.step] at hs'
+    split at hs'
+    · split at hs'
+      · cases hs'
+      · cases hs'
+        refine ⟨rfl, rfl, rfl, fun j hj => ?_⟩
         simp only [Front.cancel, List.mem_filter, ne_eq, decide_eq_true_eq, hj, not_false_eq_true, and_true]
-    · cases hs; exact ⟨rfl, rfl, fun _ _ => Iff.rfl⟩
+    · cases hs'; exact ⟨rfl, rfl, rfl, fun _ _ => Iff.rfl⟩
+  · simp only [HF.step] at hs
+    split at hs
+    · cases hs
+    · split at hs
+      · cases hs; exact ⟨rfl, fun _ _ => Iff.rfl⟩
+      · rename_i n rest hh
+        split at hs
+        · cases hs; exact ⟨rfl, fun _ _ => Iff.rfl⟩
+        · split at hs
+          · cases hs
+          · split at hs
+            · cases hs; exact ⟨rfl, fun _ _ => Iff.rfl⟩
+            · split at hs
+              · cases hs; exact ⟨rfl, fun _ _ => Iff.rfl⟩
+              · cases hs
+                refine ⟨rfl, fun j hj => ?_⟩
+                have := hj n rest hh
+                simp only [Front.drop, List.mem_filter, ne_eq, decide_eq_true_eq, this, not_false_eq_true, and_true]
+    · cases hs; exact ⟨rfl, fun _ _ => Iff.rfl⟩
+    · cases hs; exact ⟨rfl, fun _ _ => Iff.rfl⟩
 
-theorem C06_heap_bookkeeping (G : Geom) {s : HS} (hr : HReach G s) :
-    s.f.refer.Nodup ∧ ∀ id, id ∈ s.f.refer ↔ (id ∈ s.f.addIds ∨ id ∈ hids s.heap) ∧ id ∉ s.f.cancelled :=
+theorem C06_heap_bookkeeping (G : Geom) {x : HF} (hr : HFReach G x) :
+    x.s.f.refer.Nodup ∧ ∀ id, id ∈ x.s.f.refer ↔ (id ∈ x.s.f.addIds ∨ id ∈ hids x.s.heap) ∧ id ∉ x.s.f.cancelled :=
   ⟨hr.inv.front.refer_nodup, hr.inv.front.refer_iff⟩
 
-theorem C06_heap_no_stall (G : Geom) (s : HS) (a : Act) (hb : HS.step G s a = .blocked) :
-    ((∃ d, a = .after d) ∨ (∃ p, a = .every p)) ∧ G.reqCap ≤ s.f.addQ.length ∨
-    (∃ id, a = .cancel id) ∧ G.reqCap ≤ s.f.delQ.length := by
-  cases a with
-  | after d =>
-    simp only [HS.step] at hb
-    split at hb
-    · rename_i hf; exact .inl ⟨.inl ⟨d, rfl⟩, hf⟩
-    · cases hb
-  | every p =>
-    simp only [HS.step] at hb
-    split at hb
-    · rename_i hf; exact .inl ⟨.inr ⟨p, rfl⟩, hf⟩
-    · cases hb
-  | cancel j =>
-    simp only [HS.step] at hb
-    split at hb
-    · split at hb
-      · rename_i hf; exact .inr ⟨⟨j, rfl⟩, hf⟩
-      · cases hb
-    · cases hb
-  | add =>
-    simp only [HS.step] at hb
-    split at hb
-    · cases hb
-    · split at hb <;> cases hb
-  | del => simp only [HS.step] at hb; split at hb <;> cases hb
-  | tick => simp only [HS.step] at hb; split at hb <;> cases hb
-  | clock n => simp only [HS.step] at hb; cases hb
+/-- NO STALL (heap): between ticks the worker can enter a tick; inside a tick its next step is enabled in every
+REACHABLE state (no spin); a client call can only wait for room in its request channel -/
+theorem C06_heap_no_stall (G : Geom) {x : HF} (hr : HFReach G x) :
+    ((∃ x', HF.step G x .begin = .ok x' .done) ∨ (∃ x', HF.step G x .next = .ok x' .done)) ∧
+    (∀ a, a.isClient = true → HF.step G x (.cl a) = .blocked →
+      ((∃ d, a = .after d) ∨ (∃ p, a = .every p)) ∧ G.reqCap ≤ x.s.f.addQ.length ∨
+      (∃ id, a = .cancel id) ∧ G.reqCap ≤ x.s.f.delQ.length) := by
+  refine ⟨?_, ?_⟩
+  · have hnp := C06_heap_no_crash G hr .next
+    cases hq : HF.step G x .next with
+    | ok x' o =>
+      right
+      refine ⟨x', ?_⟩
+      have : o = .done := by
+        simp only [HF.step] at hq
+        split at hq
+        · cases hq
+        · split at hq
+          · cases hq; rfl
+          · split at hq
+            · cases hq; rfl
+            · split at hq
+              · cases hq
+              · split at hq
+                · cases hq; rfl
+                · split at hq <;> cases hq <;> rfl
+        · cases hq; rfl
+        · cases hq; rfl
+      rw [this]
+    | panic => exact absurd hq hnp
+    | blocked =>
+      left
+      simp only [HF.step] at hq
+      split at hq
+      · rename_i hpc; exact ⟨{ x with pc := .trig x.s.now x.s.f.nextId [] }, by simp only [HF.step, hpc]⟩
+      · split at hq
+        · cases hq
+        · split at hq
+          · cases hq
+          · split at hq
+            · cases hq
+            · split at hq
+              · cases hq
+              · split at hq <;> cases hq
+      · cases hq
+      · cases hq
+  · intro a hc hb
+    simp only [HF.step, hc, if_true] at hb
+    cases hq : HS.step G x.s a with
+    | ok s' o => rw [hq] at hb; simp [HF.lift] at hb
+    | panic => rw [hq] at hb; simp [HF.lift] at hb
+    | blocked =>
+      cases a with
+      | after d =>
+        simp only [HS.step] at hq
+        split at hq
+        · rename_i hf; exact .inl ⟨.inl ⟨d, rfl⟩, hf⟩
+        · cases hq
+      | every p =>
+        simp only [HS.step] at hq
+        split at hq
+        · rename_i hf; exact .inl ⟨.inr ⟨p, rfl⟩, hf⟩
+        · cases hq
+      | cancel j =>
+        simp only [HS.step] at hq
+        split at hq
+        · split at hq
+          · rename_i hf; exact .inr ⟨⟨j, rfl⟩, hf⟩
+          · cases hq
+        · cases hq
+      | clock n => simp only [HS.step] at hq; cases hq
+      | add => simp [Act.isClient] at hc
+      | del => simp [Act.isClient] at hc
+      | tick => simp [Act.isClient] at hc
+
+/-- A TICK ALWAYS ENDS (heap): the same measure argument for `trigger` and the send loop -/
+theorem C06_heap_tick_terminates (G : Geom) {x x' : HF} {o : Out} :
+    (x.measure = 0 ↔ x.pc = .idle) ∧
+    (HF.step G x .next = .ok x' o → x'.measure < x.measure) ∧
+    (∀ a, HF.step G x (.cl a) = .ok x' o → x'.measure = x.measure ∧ x'.pc = x.pc) := by
+  refine ⟨?_, HF.next_measure G, fun a => HF.client_measure G⟩
+  rcases x with ⟨s, pc⟩
+  cases pc with
+  | idle => simp [HF.measure]
+  | trig now m e => simp [HF.measure]
+  | sends now r => simp [HF.measure]
 
 /-! ## non-vacuity
 
-`exW` / `exH` (Lemmas/C05Ex.lean) are reachable states in which timer 5 was started and cancelled
-before the worker saw either request (start request still queued, cancel request queued), timers 1–4
-are linked.  The worker may now handle the cancel first, the start first, or tick first. -/
+`exF` (Lemmas/C06Ex.lean): the wheel of C05's `exW` (timer 5 started and cancelled before the worker saw
+either request; timers 1–4 linked), one tick later and INSIDE the next tick: second pass, the bucket with
+the periodic timer 2 detached, its decision not yet taken.  `exF'`: one step further — timer 2 decided
+for delivery, its send not yet done (in flight).  `exHF` / `exHF'`: the heap scheduler inside `trigger`
+before the first decision / after the decisions about timers 2 (periodic, re-armed) and 1 (one-shot,
+popped), both sends pending.  All are reachable. -/
 
-example : WReach geom exW ∧ exW.f.addQ.map (·.id) = [5] ∧ exW.f.delQ = [5] ∧ exW.f.cancelled = [5] ∧
-    exW.f.refer = [1, 2, 3, 4] := ⟨exW_reach, by decide, by decide, by decide, by decide⟩
+example : WFReach geom exF ∧ exF.pc = .pass true [⟨2, 9, 2, 0, 0⟩] ∧ exF.s.f.refer = [1, 2, 3, 4] ∧
+    exF.s.f.cancelled = [5] ∧ exF.s.f.delQ = [5] ∧ exF.s.f.addQ.map (·.id) = [5] :=
+  ⟨exF_reach, by decide, by decide, by decide, by decide, by decide⟩
 
-/-- the cancel request overtakes the start request (del before add), then the start is handled, then ticks:
-no panic (the run exists), timer 5 is never delivered, the others are -/
-example : (WS.run geom exW [.del, .add, .tick, .tick, .tick, .cancel 5]).map
-    (fun s => (entries s.f.log 5, entries s.f.log 1, s.f.refer, ids s.w.nodes)) = some ([], [(10, 1)], [2, 3, 4], [3, 4, 2]) := by
-  decide
+example : WFReach geom exF' ∧ exF'.pc = .send true ⟨2, 9, 2, 0, 0⟩ [] ∧ exF'.pc.inflight = [2] ∧ 2 ∈ exF'.s.f.refer :=
+  ⟨exF'_reach, by decide, by decide, by decide⟩
 
-/-- C06_wheel_cancel_final applied to cancelling timer 1 one tick before it is due -/
-example (s1 : WS) (h : WS.step geom exW (.cancel 1) = .ok s1 (.bool true)) (s' : WS)
-    (hr : WS.run geom s1 [.tick, .tick, .tick, .del, .del, .tick] = some s') :
-    1 ∉ s'.f.refer ∧ entries s'.f.log 1 = entries exW.f.log 1 :=
-  (C06_wheel_cancel_final geom C06_valid exW_reach 1 h).2.2.2 _ s' hr
+/-- Cancel(2) inside the pass BEFORE the decision about timer 2: true, and timer 2 is never delivered
+(C06_wheel_cancel_final, not in flight) -/
+example (x1 : WF) (h : WF.step geom exF (.cl (.cancel 2)) = .ok x1 (.bool true)) (acts : List FAct) (x' : WF)
+    (hr : WF.run geom x1 acts = some x') : 2 ∉ x'.s.f.refer ∧ entries x'.s.f.log 2 = entries exF.s.f.log 2 :=
+  let r := (C06_wheel_cancel_final geom exF_reach 2 h).2.2.2.2.2.2 acts x' hr
+  ⟨r.1, r.2.2 (by decide)⟩
 
-example : ∃ s1, WS.step geom exW (.cancel 1) = .ok s1 (.bool true) := ⟨_, rfl⟩
+example : ∃ x1, WF.step geom exF (.cl (.cancel 2)) = .ok x1 (.bool true) := ⟨_, rfl⟩
 
-example : HReach geom exH ∧ exH.f.addQ.map (·.id) = [5] ∧ exH.f.delQ = [5] ∧ exH.f.cancelled = [5] :=
-  ⟨exH_reach, by decide, by decide, by decide⟩
+/-- the same Cancel BETWEEN the decision and the send: true as well (timer 2 is periodic, still in the
+table), and exactly the send in flight still happens — the one stated partial; the stale requests
+(cancel 5, start 5, cancel 2) are then handled in the order del, add, del without a crash and timer 1
+fires on time -/
+example : (WF.run geom exF' [.cl (.cancel 2), .next, .next, .del, .add, .del, .begin, .next, .next, .next, .next]).map
+    (fun x => (x.s.w.time, entries x.s.f.log 2, entries x.s.f.log 1, x.s.f.refer, ids x.s.w.nodes)) =
+    some (10, [(9, 2)], [(10, 1)], [3, 4], [3, 4]) := by decide
 
-example : (HS.run geom exH [.del, .add, .clock 5, .tick, .cancel 5]).map
-    (fun s => (entries s.f.log 5, entries s.f.log 1, s.f.refer, hids s.heap)) = some ([], [(1005, 1)], [2, 3, 4], [2, 3, 4]) := by
-  decide
+example (x1 : WF) (h : WF.step geom exF' (.cl (.cancel 2)) = .ok x1 (.bool true)) (acts : List FAct) (x' : WF)
+    (hr : WF.run geom x1 acts = some x') :
+    2 ∉ x'.s.f.refer ∧ ∃ new, entries x'.s.f.log 2 = new ++ entries exF'.s.f.log 2 ∧ new.length ≤ 1 :=
+  let r := (C06_wheel_cancel_final geom exF'_reach 2 h).2.2.2.2.2.2 acts x' hr
+  ⟨r.1, r.2.1⟩
+
+example : HFReach geom exHF ∧ exHF.pc = .trig 1003 5 [] ∧ HFReach geom exHF' ∧
+    exHF'.pc = .trig 1003 5 [(2, 1002), (1, 1003)] ∧ exHF'.pc.inflight = [2, 1] ∧ exHF'.s.f.refer = [2, 3, 4] :=
+  ⟨exHF_reach, by decide, exHF'_reach, by decide, by decide, by decide⟩
+
+/-- heap, cancels after the decisions: Cancel(2) true (in flight, periodic), Cancel(1) false (one-shot decided:
+no longer pending); both sends still happen; before the decisions both cancels are true and nothing is sent -/
+example : (HF.run geom exHF' [.cl (.cancel 2), .cl (.cancel 1), .next, .next, .next, .next, .del, .add, .del]).map
+    (fun x => (x.s.f.log, x.s.f.refer, hids x.s.heap)) = some ([(1003, 1), (1003, 2)], [3, 4], [3, 4]) := by decide
+example : (HF.run geom exHF [.cl (.cancel 2), .cl (.cancel 1), .next, .next, .next, .next, .del, .add, .del]).map
+    (fun x => (x.s.f.log, x.s.f.refer, hids x.s.heap)) = some ([], [3, 4], [3, 4]) := by decide
+example : ∃ x1, HF.step geom exHF' (.cl (.cancel 1)) = .ok x1 (.bool false) := ⟨_, rfl⟩
 
 end Fatchoy.C06
